@@ -162,7 +162,9 @@ AttFinish(a) ==
             \* or another creator finished in between) - refused, the lock guard is dropped again
             /\ Refuse(a, "invalid_version", att[a].mods) /\ flock' = 0
             /\ UNCHANGED <<marker, files, I, unsyncedOpen>>
-       ELSE IF att[a].path = "create" /\ files.jnl0
+       \* (a 0.jnl without marker and without meta keyspace is the leftover of a creation that
+       \* crashed: it is removed and creation starts over - fix 6b76038; before, creation failed)
+       ELSE IF att[a].path = "create" /\ files.jnl0 /\ ~AdoptGuard
        THEN /\ Refuse(a, "io_error", att[a].mods) /\ flock' = 0
             /\ UNCHANGED <<marker, files, I, unsyncedOpen>>
        ELSE /\ att' = [att EXCEPT ![a].st = "done", ![a].res = "ok",
